@@ -160,19 +160,22 @@ theorem codec_splitDetached_header_decoded (msg hb : Bytes) (h : SigHeader) (d :
 theorem readEnc_header (msg hb : Bytes) (h : EncHeader) (ps : PStream EncBlock)
     (hrd : Front.readEnc msg = .ok (.ok hb h, ps)) : FrontEncHeader hb h := by
   rcases orWire_ok hrd with hc | ⟨_, _, hw⟩
-  · exact Or.inl (codec_split_header_decoded _ _ msg hb h ps hc)
+  · obtain ⟨ps0, hc0, _, _⟩ := settle_ok hc
+    exact Or.inl (codec_split_header_decoded _ _ msg hb h ps0 hc0)
   · exact Or.inr (split_header_decoded _ _ msg hb h ps hw)
 
 theorem readSigncrypt_header (msg hb : Bytes) (h : EncHeader) (ps : PStream SigncryptBlock)
     (hrd : Front.readSigncrypt msg = .ok (.ok hb h, ps)) : FrontEncHeader hb h := by
   rcases orWire_ok hrd with hc | ⟨_, _, hw⟩
-  · exact Or.inl (codec_split_header_decoded _ _ msg hb h ps hc)
+  · obtain ⟨ps0, hc0, _, _⟩ := settle_ok hc
+    exact Or.inl (codec_split_header_decoded _ _ msg hb h ps0 hc0)
   · exact Or.inr (split_header_decoded _ _ msg hb h ps hw)
 
 theorem readSig_header (msg hb : Bytes) (h : SigHeader) (ps : PStream SigBlock)
     (hrd : Front.readSig msg = .ok (.ok hb h, ps)) : FrontSigHeader hb h := by
   rcases orWire_ok hrd with hc | ⟨_, _, hw⟩
-  · exact Or.inl (codec_split_header_decoded _ _ msg hb h ps hc)
+  · obtain ⟨ps0, hc0, _, _⟩ := settle_ok hc
+    exact Or.inl (codec_split_header_decoded _ _ msg hb h ps0 hc0)
   · exact Or.inr (split_header_decoded _ _ msg hb h ps hw)
 
 theorem readDetached_header (sigMsg hb : Bytes) (h : SigHeader) (sr : Sign.SigRead)
